@@ -3,6 +3,7 @@
 package connectconformance
 
 import (
+	"bytes"
 	"context"
 	"encoding/binary"
 	"fmt"
@@ -244,5 +245,104 @@ func TestVerifC09ClientResponseSize(t *testing.T) {
 			break
 		}
 	}
+	en.Done(true)
+}
+
+// vfStallReader hands out its bytes and then blocks until released (the peer keeps its output open and says no more).
+type vfStallReader struct {
+	data    []byte
+	release chan struct{}
+}
+
+func (r *vfStallReader) Read(p []byte) (int, error) {
+	if len(r.data) > 0 {
+		n := copy(p, r.data)
+		r.data = r.data[n:]
+		return n, nil
+	}
+	<-r.release
+	return 0, io.EOF
+}
+
+// TestVerifC09ServerStall: the batch runner's read of a server's start response when the server stalls - before
+// writing anything, 2 bytes into the length prefix, or half-way into the message: every case of the batch becomes a
+// setup error that names how much had arrived, and that happens within the period configured for servers (10 s; the
+// check allows 5 s after a timer of that length started at the same moment has fired).
+func TestVerifC09ServerStall(t *testing.T) {
+	en := verifkit.NewEnum(t, "C09ServerStall")
+	type row struct {
+		StallAt string `json:"stallAt"`
+	}
+	rows := []row{{"nothing"}, {"prefix"}, {"message"}}
+	var replay row
+	if en.ReplayCase(&replay) {
+		rows = []row{replay}
+	}
+	var mu sync.Mutex
+	var wg sync.WaitGroup
+	release := make(chan struct{})
+	for _, r := range rows {
+		wg.Add(1)
+		go func(r row) {
+			defer wg.Done()
+			data, _ := proto.Marshal(&conformancev1.ServerCompatResponse{Host: "127.0.0.1", Port: 4242, PemCert: bytes.Repeat([]byte("c"), 100)})
+			var l [4]byte
+			binary.BigEndian.PutUint32(l[:], uint32(len(data)))
+			full := append(l[:], data...)
+			var out []byte
+			want := "timed out waiting for result from server"
+			switch r.StallAt {
+			case "prefix":
+				out, want = full[:2], "read 2/4 bytes of length prefix"
+			case "message":
+				out, want = full[:4+len(data)/2], fmt.Sprintf("read %d/%d bytes of message", len(data)/2, len(data))
+			}
+			proc := &vfFakeProc{done: make(chan struct{})}
+			starter := processStarter(func(context.Context, bool) (*process, error) {
+				return &process{processController: proc, stdin: &vfFakeStdin{}, stdout: &vfStallReader{data: out, release: release}, stderr: strings.NewReader("")}, nil
+			})
+			tc := &conformancev1.TestCase{Request: &conformancev1.ClientCompatRequest{TestName: "Suite/verif-c09/stall-" + r.StallAt, StreamType: conformancev1.StreamType_STREAM_TYPE_UNARY,
+				Protocol: conformancev1.Protocol_PROTOCOL_CONNECT, HttpVersion: conformancev1.HTTPVersion_HTTP_VERSION_1}, ExpectedResponse: &conformancev1.ClientResponseResult{}}
+			results := newResults(1, &testTrie{}, &testTrie{}, nil)
+			client := &vfFakeClient{c: vfC11Case{N: 1}, proc: proc, expected: map[string]*conformancev1.ClientResponseResult{}}
+			done := make(chan struct{})
+			reference := time.After(serverResponseTimeout)
+			start := time.Now()
+			go func() {
+				defer close(done)
+				runTestCasesForServer(context.Background(), false, false, serverInstance{protocol: conformancev1.Protocol_PROTOCOL_CONNECT, httpVersion: conformancev1.HTTPVersion_HTTP_VERSION_1},
+					[]*conformancev1.TestCase{tc}, nil, nil, starter, &vfC11Printer{}, &vfC11Printer{}, results, client, nil, false)
+			}()
+			var viol error
+			select {
+			case <-done:
+				if time.Since(start) < serverResponseTimeout-2*time.Second {
+					viol = verifkit.Violf("server-stall-early", "the batch gave up on a stalled server after %v, the period is %v", time.Since(start), serverResponseTimeout)
+				}
+			case <-reference:
+				select {
+				case <-done:
+				case <-time.After(5 * time.Second):
+					viol = verifkit.Violf("server-stall-no-timeout", "the server stalled (%s) and the batch had not given up 5s after a timer of the configured period (%v) fired", r.StallAt, serverResponseTimeout)
+				}
+			}
+			if viol == nil {
+				results.mu.Lock()
+				o, ok := results.outcomes[tc.Request.TestName]
+				results.mu.Unlock()
+				if !ok || !o.setupError || o.actualFailure == nil || !strings.Contains(o.actualFailure.Error(), want) {
+					viol = verifkit.Violf("server-stall-outcome", "stall at %s: outcome present=%v setupError=%v failure=%v, want a setup error saying %q", r.StallAt, ok, o.setupError, o.actualFailure, want)
+				}
+			}
+			mu.Lock()
+			defer mu.Unlock()
+			en.Rec.Observe(r, []string{"stall:" + r.StallAt}, true)
+			if viol != nil {
+				en.Fail(r, viol)
+			}
+		}(r)
+	}
+	wg.Wait()
+	close(release)
 	en.Done(true)
 }
